@@ -10,10 +10,14 @@ mkdir -p work replays evidence
    CARGO_NET_OFFLINE=true cargo build --offline $prof --no-default-features --target-dir target-nostd >/dev/null 2>&1 || true
    CARGO_NET_OFFLINE=true cargo build --offline $prof --no-default-features --features std --target-dir target-std >/dev/null 2>&1 || true
  done)
+# the interpreter module AsmBlock extends the generated program module: generate it once for parsing
+mkdir -p work/gen
+python3 tools/extract_asm.py /repo/src/biguint/addition.rs schoolbook_add_assign_x86_64 AsmProg work/gen >/dev/null 2>&1 || \
+  printf -- '---- MODULE AsmProg ----\nProg == <<>>\nOperands == [x |-> [cls |-> "in", reg |-> "reg", expr |-> "x"]]\nRegNames == {"x"}\nParams == <<"lhs", "rhs", "size">>\nBlockDiv == 1\nSizeParam == "x"\nEarlyReturn == FALSE\nIdx0 == 0\nRetCarry == "x"\nRetDone == "x"\nOptions == {}\n====\n' > work/gen/AsmProg.tla
 for f in spec/*.tla mc/*.tla spec/algo/*.tla; do
   [ -f "$f" ] || continue
   d=$(dirname "$f"); b=$(basename "$f")
-  (cd "$d" && java -cp /opt/veriftools/tla/tla2tools.jar:/opt/veriftools/tla/CommunityModules-deps.jar -DTLA-Library=/verif/spec:/verif/spec/algo:/verif/mc tla2sany.SANY "$b" >/tmp/sany.$$ 2>&1) || { cat /tmp/sany.$$; rm -f /tmp/sany.$$; echo "SANY failed on $f"; exit 1; }
+  (cd "$d" && java -cp /opt/veriftools/tla/tla2tools.jar:/opt/veriftools/tla/CommunityModules-deps.jar -DTLA-Library=/verif/spec:/verif/spec/algo:/verif/mc:/verif/work/gen tla2sany.SANY "$b" >/tmp/sany.$$ 2>&1) || { cat /tmp/sany.$$; rm -f /tmp/sany.$$; echo "SANY failed on $f"; exit 1; }
   rm -f /tmp/sany.$$
 done
 echo setup ok
